@@ -289,17 +289,37 @@ func solveAll(jobs []job, timeoutFor func(*Obligation) int, seed int, needAgree 
 	}
 	defer os.RemoveAll(dir)
 	out := make([]*SolveResult, len(jobs))
-	var wg sync.WaitGroup
-	sem := make(chan struct{}, workers)
-	for i, j := range jobs {
-		wg.Add(1)
-		sem <- struct{}{}
-		go func(i int, j job) {
-			defer wg.Done()
-			defer func() { <-sem }()
-			out[i] = solveObligation(j.vc, j.o, dir, i, timeoutFor(j.o), seed, needAgree, "")
-		}(i, j)
+	run := func(idxs []int, w int) {
+		var wg sync.WaitGroup
+		sem := make(chan struct{}, w)
+		for _, i := range idxs {
+			wg.Add(1)
+			sem <- struct{}{}
+			go func(i int) {
+				defer wg.Done()
+				defer func() { <-sem }()
+				j := jobs[i]
+				out[i] = solveObligation(j.vc, j.o, dir, i, timeoutFor(j.o), seed, needAgree, "")
+			}(i)
+		}
+		wg.Wait()
 	}
-	wg.Wait()
+	// phase 1: obligations without float arithmetic (many, fast); phase 2: float obligations with few workers,
+	// so that the slow exact-IEEE queries are not starved (each races three solver processes)
+	var plain, floaty []int
+	for i, j := range jobs {
+		j.vc.prepAll()
+		if !j.o.Cover && j.vc.hasFloatDefs(j.o) {
+			floaty = append(floaty, i)
+		} else {
+			plain = append(plain, i)
+		}
+	}
+	run(plain, workers)
+	fw := workers / 3
+	if fw < 1 {
+		fw = 1
+	}
+	run(floaty, fw)
 	return out
 }
